@@ -36,12 +36,180 @@ theorem newService_log_not_repoll (f : Fac) (cfg : Nat) : ∀ e ∈ (newService 
     · exact iha cfg e he
     · exact ihb cfg e he
   | applyFn a kind k ih => simpa [newService] using ih cfg
-  | transform t tp tok a ih => simpa [newService] using ih cfg
+  | transform t tp tok mie a ih => simpa [newService] using ih cfg
   | applyCfg s f ip iok => simp [newService, isRepoll]
   | applyCfgFac a f ip iok ih => simpa [newService] using ih 0
   | mapConfig a f ih => have := ih (mapFn f cfg); simp [newService, isRepoll]; exact this
   | unitConfig a ih => simpa [newService] using ih 0
   | boxed a ih => simpa [newService] using ih cfg
   | rc a ih => simpa [newService] using ih cfg
+
+/-! ## Wake-ups (C12): a `Pending` answer of a combinator is backed by an inner `Pending` answer given
+to the *current* waker.  The scripted leaves park the waker they are polled with whenever they answer
+`Pending`, so such an event is exactly "a wake-up of the task has been arranged". -/
+
+
+/-- an inner future / service answered `Pending` to waker `w` (this is where the scripted leaves park
+the waker: the wake-up of the task is arranged), or a completed one was polled again -/
+def isPendingFor (w : Nat) : Evt → Bool
+  | .polled _ w' none => w' == w
+  | .ipolled _ w' none => w' == w
+  | .rdy _ w' .pending => w' == w
+  | .repoll _ w' => w' == w
+  | .irepoll _ w' => w' == w
+  | _ => false
+
+def WakeObs (w : Nat) (pending : Bool) (l : List Evt) : Prop :=
+  (pending = true → ∃ e ∈ l, isPendingFor w e = true) ∧
+  (∀ e ∈ l, evtWaker e = none ∨ evtWaker e = some w)
+
+theorem wakeObs_append (w : Nat) (p1 p2 p : Bool) (l1 l2 : List Evt)
+    (h1 : WakeObs w p1 l1) (h2 : WakeObs w p2 l2) (hp : p = true → p1 = true ∨ p2 = true) :
+    WakeObs w p (l1 ++ l2) := by
+  simp only [WakeObs, List.mem_append] at *
+  grind
+
+theorem wakeObs_quietTail (w : Nat) (p : Bool) (l l2 : List Evt) (h1 : WakeObs w p l)
+    (h2 : ∀ e ∈ l2, evtWaker e = none) : WakeObs w p (l ++ l2) := by
+  simp only [WakeObs, List.mem_append] at *
+  grind
+
+def RWake (s : Svc) (w : Nat) : Prop :=
+  WakeObs w (decide ((pollReady s w).2.1 = .pending)) (pollReady s w).2.2
+
+theorem pollReady_wake (s : Svc) (w : Nat) : RWake s w := by
+  fun_induction pollReady s w
+  case case1 => simp [RWake, WakeObs, pollReady, isPendingFor, evtWaker]
+  case case2 => simp [RWake, WakeObs, pollReady, isPendingFor, evtWaker]
+  case case3 => simp [RWake, WakeObs, pollReady, isPendingFor, evtWaker]
+  case case4 => simp [RWake, WakeObs, pollReady]
+  case case9 =>
+    rename_i a b w a' ra la hne hx b' e lb hxb iha ihb
+    simp only [RWake] at iha ihb ⊢; rw [pollReady]; simp only [hx, hxb]; rw [hx] at iha; rw [hxb] at ihb
+    simp only at iha ihb ⊢
+    exact wakeObs_append w _ _ _ _ _ iha ihb (by simp)
+  case case10 =>
+    rename_i a b w a' ra la hne hx b' rb lb hneb hxb iha ihb
+    simp only [RWake] at iha ihb ⊢; rw [pollReady]; simp only [hx, hxb]; rw [hx] at iha; rw [hxb] at ihb
+    simp only at iha ihb ⊢
+    apply wakeObs_append w _ _ _ _ _ iha ihb
+    cases ra <;> cases rb <;> first | exact (hne _ rfl).elim | exact (hneb _ rfl).elim | simp
+  all_goals
+    rename_i hx ih
+    simp only [RWake] at ih ⊢; rw [pollReady]; simp only [hx]; rw [hx] at ih
+    simp only [WakeObs] at ih ⊢
+    simp at ih ⊢
+    grind [evtWaker]
+
+def IObsOf (w : Nat) (out : IFut × Option IRes × List Evt) : Prop :=
+  WakeObs w (decide (out.2.1 = none)) out.2.2
+
+theorem pollLeafI_obs (id p : Nat) (r : IRes) (fin : Bool) (w : Nat) : IObsOf w (pollLeafI id p r fin w) := by
+  cases fin <;> cases p <;> simp [IObsOf, WakeObs, pollLeafI, isPendingFor, evtWaker]
+
+theorem pollTrans_obs (t tp : Nat) (r : IRes) (mie : Option Nat) (w : Nat) : IObsOf w (pollTrans t tp r mie w) := by
+  cases mie <;> cases tp <;> cases r <;> simp [IObsOf, WakeObs, pollTrans, pollLeafI, isPendingFor, evtWaker]
+
+theorem cfgBStep_obs (svc : Svc) (f ip : Nat) (iok : Bool) (cfg w : Nat) : IObsOf w (cfgBStep svc f ip iok cfg w) := by
+  have h := pollReady_wake svc w
+  simp only [RWake] at h
+  simp only [cfgBStep]
+  rcases hx : pollReady svc w with ⟨svc', r, l⟩
+  rw [hx] at h
+  cases r with
+  | pending => simpa [IObsOf] using h
+  | err e => simp only [IObsOf, WakeObs] at h ⊢; simp at h ⊢; exact h
+  | ok =>
+    have hl := pollLeafI_obs f ip (cfgRes svc' f iok cfg) false w
+    rcases hp : pollLeafI f ip (cfgRes svc' f iok cfg) false w with ⟨fu, r2, l2⟩
+    rw [hp] at hl
+    simp only [IObsOf, WakeObs] at h hl ⊢
+    simp at h hl ⊢
+    grind [evtWaker]
+
+def IObs (fu : IFut) (w : Nat) : Prop := IObsOf w (ipoll fu w)
+
+theorem ipoll_obs (fu : IFut) (w : Nat) : IObs fu w := by
+  fun_induction ipoll fu w
+  case case1 => rename_i id p r fin w; simp only [IObs, ipoll]; exact pollLeafI_obs id p r fin w
+  case case2 => simp [IObs, IObsOf, WakeObs, ipoll]
+  case case3 => simp [IObs, IObsOf, WakeObs, ipoll, isPendingFor, evtWaker]
+  case case21 => simp [IObs, IObsOf, WakeObs, ipoll, joinDone]
+  case case29 => rename_i svc f ip iok cfg w; simp only [IObs, ipoll]; exact cfgBStep_obs svc f ip iok cfg w
+  case case24 =>
+    rename_i fu0 t tp tok mie w fst s l hx fu r l2 hp ih
+    have hl := pollTrans_obs t tp (transRes s t tok) mie w
+    rw [hp] at hl
+    simp only [IObs, IObsOf, WakeObs] at ih hl ⊢; rw [ipoll]; simp only [hx, hp]; rw [hx] at ih
+    simp at ih hl ⊢
+    grind [evtWaker]
+  case case28 =>
+    rename_i fu0 f ip iok cfg w fst s l hx fu r l2 hp ih
+    have hl := cfgBStep_obs s f ip iok cfg w
+    rw [hp] at hl
+    simp only [IObs, IObsOf, WakeObs] at ih hl ⊢; rw [ipoll]; simp only [hx, hp]; rw [hx] at ih
+    simp at ih hl ⊢
+    grind [evtWaker]
+  case case14 =>
+    rename_i fa fb w fa' e la hxa iha
+    simp only [IObs, IObsOf, WakeObs] at iha ⊢; rw [ipoll]; simp only [hxa]; rw [hxa] at iha
+    simp at iha ⊢; exact iha
+  case case15 =>
+    rename_i fa fb w fa' ra la hnea hxa fb' e lb hxb iha ihb
+    simp only [IObs, IObsOf, WakeObs] at iha ihb ⊢; rw [ipoll]; simp only [hxa, hxb]; rw [hxa] at iha; rw [hxb] at ihb
+    simp at iha ihb ⊢; grind
+  case case16 =>
+    rename_i fa fb w fa' ra la hnea hxa fb' rb lb hneb hxb iha ihb
+    simp only [IObs, IObsOf, WakeObs] at iha ihb ⊢; rw [ipoll]; simp only [hxa, hxb]; rw [hxa] at iha; rw [hxb] at ihb
+    rcases ra with _ | (sa | ea) <;> rcases rb with _ | (sb | eb) <;>
+      simp [joinDone, svcOf] at hnea hneb iha ihb ⊢ <;> grind
+  case case17 =>
+    rename_i fa fb sa w fb' e lb hxb ihb
+    simp only [IObs, IObsOf, WakeObs] at ihb ⊢; rw [ipoll]; simp only [hxb]; rw [hxb] at ihb
+    simp at ihb ⊢; exact ihb
+  case case18 =>
+    rename_i fa fb sa w fb' rb lb hneb hxb ihb
+    simp only [IObs, IObsOf, WakeObs] at ihb ⊢; rw [ipoll]; simp only [hxb]; rw [hxb] at ihb
+    rcases rb with _ | (sb | eb) <;> simp [joinDone, svcOf] at hneb ihb ⊢ <;> grind
+  case case19 =>
+    rename_i fa fb sb w fa' e la hxa iha
+    simp only [IObs, IObsOf, WakeObs] at iha ⊢; rw [ipoll]; simp only [hxa]; rw [hxa] at iha
+    simp at iha ⊢; exact iha
+  case case20 =>
+    rename_i fa fb sb w fa' ra la hnea hxa iha
+    simp only [IObs, IObsOf, WakeObs] at iha ⊢; rw [ipoll]; simp only [hxa]; rw [hxa] at iha
+    rcases ra with _ | (sa | ea) <;> simp [joinDone, svcOf] at hnea iha ⊢ <;> grind
+  all_goals
+    rename_i hx ih
+    simp only [IObs, IObsOf, WakeObs] at ih ⊢; rw [ipoll]; simp only [hx]; rw [hx] at ih
+    simp at ih ⊢
+    grind [evtWaker]
+
+/-! ## The readiness gate of `apply_cfg_factory` (state B) -/
+
+def isCfgFn : Evt → Bool
+  | .cfgFn .. => true
+  | _ => false
+
+theorem pollReady_no_cfgFn (s : Svc) (w : Nat) : ∀ e ∈ (pollReady s w).2.2, isCfgFn e = false := by
+  fun_induction pollReady s w <;> simp_all [isCfgFn] <;> grind [isCfgFn]
+
+/-- one step of state B: the closure is invoked iff the created service answered `Ready(Ok)` in this
+very poll; a readiness error is the init error; `Pending` keeps the future pending -/
+theorem cfgBStep_gate (svc : Svc) (f ip : Nat) (iok : Bool) (cfg w : Nat) :
+    (∀ e, (pollReady svc w).2.1 = .err e →
+        (cfgBStep svc f ip iok cfg w).2.1 = some (.err e) ∧
+        ∀ ev ∈ (cfgBStep svc f ip iok cfg w).2.2, isCfgFn ev = false) ∧
+    ((pollReady svc w).2.1 = .pending →
+        (cfgBStep svc f ip iok cfg w).2.1 = none ∧
+        ∀ ev ∈ (cfgBStep svc f ip iok cfg w).2.2, isCfgFn ev = false) ∧
+    ((pollReady svc w).2.1 = .ok → Evt.cfgFn f cfg ∈ (cfgBStep svc f ip iok cfg w).2.2) := by
+  have hq := pollReady_no_cfgFn svc w
+  simp only [cfgBStep]
+  rcases hx : pollReady svc w with ⟨svc', r, l⟩
+  rw [hx] at hq
+  cases r <;> simp at hq ⊢
+  · exact hq
+  · exact hq
 
 end ActixNet.Service
